@@ -619,7 +619,9 @@ def rule_partition(ck: Check, repo: Repo, rid: str = "R4") -> None:
             txt = resolve(v)
             ok = txt == p_text or re.fullmatch(re.escape(f"'\\n'.join({p_text}.splitlines()[:") + r"[^\]]+\]\)", txt) is not None \
                 or re.fullmatch(re.escape(f"{p_text}[:") + r"[^\]]+\]", txt) is not None \
-                or txt == f"super().comment_at_first_character({p_text})"   # plain delegation: as good as the base it delegates to
+                or txt == f"super().comment_at_first_character({p_text})" \
+                or re.fullmatch(re.escape("'\\n'.join(") + r"(list\()?takewhile\(.+, " + re.escape(f"{p_text}.splitlines()") + r"\)\)?\)", txt, re.S) is not None
+            # (plain delegation is as good as the base it delegates to; a takewhile over the lines is a leading run of them)
             forms.append((txt, ok))
             if not ok:
                 r.violation(cq, "the returned block is not a prefix of the text",
